@@ -24,7 +24,7 @@ CHECKS = {
    design_ref="DESIGN.md §5 C19"),
 
  "C03": dict(engine="leakx", level="model_checking",
-   text="Every operation sequence of depth 2 (quick; 3 thorough, both backends) over a 14-operation alphabet (create/update/delete/move/archive secret, compact folder/account, change folder password, set description, delete folder, change account password, change cipher, export backup archive, sync) is run from a two-folder baseline account with a distinct marker for every plaintext introduced at every position, followed by a sync through a recording TCP tee and a scan of everything stored and sent. In addition, for every one of the 15 secret kinds x client backend a real account is driven through a fixed history (create with marker values, update, folder with marker description, attachment, backup archive export, folder export, sync to a real in-process server through a recording TCP tee, further edit + sync, second device pulls, delete/update conflict resolved by auto merge); in addition device pairing is run in both protocol directions on both backends between a real NetworkAccount and an empty device through the server's websocket relay (also through the tee), followed by enrollment, an edit on the paired device and syncs. Every user-supplied plaintext, every delegated folder password, the account password, the device signing keys (including the one transported to the paired device) and the pairing pre-shared key are markers. Every file under both client directories and the server directory (SQLite files and WAL, event logs, vaults, blobs, archives raw and inflated) and every byte captured on the wire in both directions is scanned for every marker in raw, hex, base64 (std/url, 3 alignments), UTF-16 LE/BE and JSON-escaped form. Positive controls (planted marker; markers present in the decrypted view) must succeed on every run.",
+   text="Every operation sequence of depth 2 (quick; 3 thorough, both backends) over a 14-operation alphabet (create/update/delete/move/archive secret, compact folder/account, change folder password, set description, delete folder, change account password, change cipher, export backup archive, sync) is run from a two-folder baseline account with a distinct marker for every plaintext introduced at every position, followed by a sync through a recording TCP tee and a scan of everything stored and sent. In addition, for every one of the 15 secret kinds x client backend a real account is driven through a fixed history (create with marker values, update, folder with marker description, attachment, backup archive export, folder export, sync to a real in-process server through a recording TCP tee, further edit + sync, second device pulls, delete/update conflict resolved by auto merge); in addition device pairing is run in both protocol directions on both backends between a real NetworkAccount and an empty device through the server's websocket relay (also through the tee), followed by enrollment, an edit on the paired device and syncs. Every user-supplied plaintext, every delegated folder password, the account password, the device signing keys (including the one transported to the paired device) and the pairing pre-shared key are markers. Every file under both client directories and the server directory (SQLite files and WAL, event logs, vaults, blobs, archives raw and inflated) and every byte captured on the wire in both directions is scanned for every marker in raw, hex, base64 (std/url, 3 alignments), UTF-16 LE/BE and JSON-escaped form. The SDK's real file logger is installed at trace level (the most verbose a user can configure) and its files are scanned like any other storage; every history ends with a fresh sign-in that rebuilds the search index from the decrypted folders. Positive controls (planted marker; markers present in the decrypted view) must succeed on every run.",
    note="Decides absence of the enumerated encodings, not cryptographic secrecy; the secret-kind dimension uses one fixed 11-step history per kind, the history dimension uses note/login/card secrets only (kinds x histories is not a full product).",
    technique="exhaustive enumeration of bounded operation histories, secret kinds x backends, pairing directions and marker encodings over all stored bytes and all wire bytes of real client/server runs",
    design_ref="DESIGN.md §5 C03"),
